@@ -82,25 +82,35 @@ type canonStats struct {
 }
 
 type inliner struct {
-	c          *Ctx
-	orig       map[*ssa.Function][]*ssa.BasicBlock
-	recover    map[*ssa.Function]*ssa.BasicBlock
-	inlinable  map[*ssa.Function]bool
-	origOf     map[ssa.Instruction]ssa.Instruction // clone -> original instruction
-	nInlined   int
-	maxDepth   int
-	usedAsCall map[*ssa.Function]int // static call sites that were NOT inlined (barrier / depth)
-	wasInlined map[*ssa.Function]bool
-	synthOf    map[ssa.Instruction]*ssa.Defer // call synthesised for a deferred call of an inlined function -> its defer
+	c           *Ctx
+	orig        map[*ssa.Function][]*ssa.BasicBlock
+	recover     map[*ssa.Function]*ssa.BasicBlock
+	inlinable   map[*ssa.Function]bool
+	origOf      map[ssa.Instruction]ssa.Instruction // clone -> original instruction
+	nInlined    int
+	maxDepth    int
+	usedAsCall  map[*ssa.Function]int // static call sites that were NOT inlined (barrier / depth)
+	wasInlined  map[*ssa.Function]bool
+	synthOf     map[ssa.Instruction]*ssa.Defer // call synthesised for a deferred call of an inlined function -> its defer
+	samePkgOnly map[*ssa.Function]bool         // helpers of the parser / printer: inlined into callers of their own package only
 }
+
+func token_IsExported(name string) bool { return len(name) > 0 && name[0] >= 'A' && name[0] <= 'Z' }
 
 // barrier: anchor functions the rules are written against (exported API pinned by the existing tests, see DESIGN.md 3.3),
 // small predicates the rules recognise by their body, and whole packages whose rules are per function or syntactic.
 func (il *inliner) barrier(f *ssa.Function) bool {
 	pkg := shortPkg(fnPkgPath(f))
 	switch pkg {
-	case "lexer", "parser", "token", "ast":
+	case "lexer", "token":
 		return true
+	case "parser", "ast":
+		// the rules for these packages are written per function against the parser's and the printer's entry points; helpers
+		// below those (unexported, not one of the named entry points) are inlined into callers of the same package only
+		if (token_IsExported(f.Name()) && (recvNamed(f) == "" || token_IsExported(recvNamed(f)))) || f.Name() == "next" || f.Name() == "parseTask" || f.Name() == "parseComment" {
+			return true
+		}
+		il.samePkgOnly[f] = true
 	}
 	recv := recvNamed(f)
 	name := f.Name()
@@ -110,7 +120,7 @@ func (il *inliner) barrier(f *ssa.Function) bool {
 		{"task", "Task", "Run"}: true, {"task", "", "New"}: true, {"task", "Results", "JSON"}: true,
 		{"cache", "", "Load"}: true, {"cache", "", "Init"}: true, {"cache", "", "Exists"}: true, {"cache", "", "New"}: true,
 		{"cache", "Cache", "Get"}: true, {"cache", "Cache", "Set"}: true, {"cache", "Cache", "Dump"}: true,
-		{"hash", "", "New"}: true,
+		{"hash", "", "New"}:       true,
 		{"cli/app", "App", "Run"}: true, {"cli/app", "", "New"}: true,
 		{"iostream", "", "OS"}: true, {"iostream", "", "Null"}: true, {"iostream", "", "Test"}: true,
 		{"logger", "", "NewZapLogger"}: true, {"builtins", "", "Get"}: true,
@@ -454,6 +464,9 @@ func (e *emitCtx) emit(f *ssa.Function, inlined bool, args, binds []ssa.Value, d
 						}
 					}
 				}
+				if g != nil && il.samePkgOnly[g] && fnPkgPath(g) != fnPkgPath(e.host) {
+					bindable = false
+				}
 				if g != nil && il.inlinable[g] && bindable && !onStack && g != f {
 					var cargs []ssa.Value
 					for _, a := range call.Common().Args {
@@ -582,7 +595,7 @@ var tupleMarker ssa.Value = &ssa.Const{}
 // canonicalise rewrites every module function in place; see the comment at the top of this file.
 func (c *Ctx) canonicalise(depth int) *canonStats {
 	il := &inliner{c: c, orig: map[*ssa.Function][]*ssa.BasicBlock{}, recover: map[*ssa.Function]*ssa.BasicBlock{},
-		origOf: map[ssa.Instruction]ssa.Instruction{}, maxDepth: depth, usedAsCall: map[*ssa.Function]int{}, wasInlined: map[*ssa.Function]bool{}, synthOf: map[ssa.Instruction]*ssa.Defer{}}
+		origOf: map[ssa.Instruction]ssa.Instruction{}, maxDepth: depth, usedAsCall: map[*ssa.Function]int{}, wasInlined: map[*ssa.Function]bool{}, synthOf: map[ssa.Instruction]*ssa.Defer{}, samePkgOnly: map[*ssa.Function]bool{}}
 	for _, f := range c.ModFuncs {
 		il.orig[f] = f.Blocks
 		il.recover[f] = f.Recover
@@ -1064,32 +1077,67 @@ func splitStructs(f *ssa.Function) int {
 		}
 		return true
 	}
+	// which cells are used as state: some field is stored on its own, and some field is read on its own. Cells that are whole
+	// copies of one another (`x := newThing()`) are judged together.
+	stores, loads := map[*ssa.Alloc]bool{}, map[*ssa.Alloc]bool{}
+	group := map[*ssa.Alloc]*ssa.Alloc{}
+	var find func(a *ssa.Alloc) *ssa.Alloc
+	find = func(a *ssa.Alloc) *ssa.Alloc {
+		if g, ok := group[a]; ok && g != a {
+			r := find(g)
+			group[a] = r
+			return r
+		}
+		return a
+	}
+	for a := range cand {
+		var under func(x *ssa.FieldAddr)
+		under = func(x *ssa.FieldAddr) {
+			for _, uu := range users[x] {
+				switch y := uu.(type) {
+				case *ssa.Store:
+					if y.Addr == ssa.Value(x) {
+						stores[a] = true
+					}
+				case *ssa.UnOp:
+					loads[a] = true
+				case *ssa.FieldAddr:
+					under(y)
+				}
+			}
+		}
+		for _, u := range users[a] {
+			switch x := u.(type) {
+			case *ssa.FieldAddr:
+				under(x)
+			case *ssa.UnOp:
+				for _, lu := range users[x] {
+					switch y := lu.(type) {
+					case *ssa.Field:
+						loads[a] = true
+					case *ssa.Store:
+						if b := asCand(y.Addr); b != nil && y.Val == ssa.Value(x) {
+							group[find(a)] = find(b)
+						}
+					}
+				}
+			}
+		}
+	}
+	gStores, gLoads := map[*ssa.Alloc]bool{}, map[*ssa.Alloc]bool{}
+	for a := range cand {
+		if stores[a] {
+			gStores[find(a)] = true
+		}
+		if loads[a] {
+			gLoads[find(a)] = true
+		}
+	}
 	for changed := true; changed; {
 		changed = false
 		for a := range cand {
 			ok := true
-			fieldStore, fieldLoad := false, false
-			var under func(x *ssa.FieldAddr)
-			under = func(x *ssa.FieldAddr) {
-				for _, uu := range users[x] {
-					switch y := uu.(type) {
-					case *ssa.Store:
-						if y.Addr == ssa.Value(x) {
-							fieldStore = true
-						}
-					case *ssa.UnOp:
-						fieldLoad = true
-					case *ssa.FieldAddr:
-						under(y)
-					}
-				}
-			}
-			for _, u := range users[a] {
-				if fa, isFA := u.(*ssa.FieldAddr); isFA {
-					under(fa)
-				}
-			}
-			readBack := fieldStore && fieldLoad
+			readBack := gStores[find(a)] && gLoads[find(a)]
 			for _, u := range users[a] {
 				if !reach[u.Block()] {
 					ok = false
@@ -1129,8 +1177,8 @@ func splitStructs(f *ssa.Function) int {
 					ok = false
 				}
 			}
-			// (only cells used as mutable state are worth splitting: some field is both stored and loaded on its own. A composite
-			// literal that is filled and then used whole, or a copy whose fields are only read, stays as it is)
+			// (only cells used as mutable state are worth splitting: a composite literal that is filled and then used whole, or a
+			// copy whose fields are only read, stays as it is)
 			if !ok || !readBack {
 				delete(cand, a)
 				changed = true
@@ -1300,7 +1348,7 @@ func splitStructs(f *ssa.Function) int {
 // error path and the success path never meet, and a phi no longer mixes the value of one with the placeholder of the other.
 
 // noThread: packages whose rules are written against the source-level shape of the code.
-var noThread = map[string]bool{"lexer": true, "parser": true, "token": true, "ast": true}
+var noThread = map[string]bool{"lexer": true, "token": true}
 
 func pruneUnreachable(f *ssa.Function) {
 	reach := map[*ssa.BasicBlock]bool{}
